@@ -162,7 +162,14 @@ impl Numeric {
                         if den > BigInt::from(1_000u64) || num > BigInt::from(1_000_000u64) {
                             (None, Some(v))
                         } else {
-                            (Some(format!("{}/{}", num, den)), Some(v))
+                            (
+                                Some(format!(
+                                    "{}/{}",
+                                    num.inner().to_str_radix(base as u32),
+                                    den.inner().to_str_radix(base as u32)
+                                )),
+                                Some(v),
+                            )
                         }
                     }
                 }
